@@ -8,18 +8,21 @@ ROOT=$(cd "$(dirname "$0")" && pwd)
 . "$ROOT/env.sh"
 prop=${1:?property id}; shift
 mode=${1:-quick}; shift || true
-mkdir -p "$ROOT/bin" "$ROOT/evidence" "$ROOT/replays"
+OUT=${VERIF_OUT_ROOT:-$ROOT}      # self-test only: where evidence/replays go
+BIN=${VERIF_BIN:-$ROOT/bin}        # self-test only: separate binaries for mutated builds
+OVL=${VERIF_OVERLAY:+-overlay=$VERIF_OVERLAY}   # self-test only: mutated /repo files
+mkdir -p "$BIN" "$OUT/evidence" "$OUT/replays"
 build() { # build <pkg> <out> [flags...]
   local pkg=$1 out=$2; shift 2
   local tmp="$out.$$"
-  (cd "$ROOT/harness" && go build "$@" -o "$tmp" "$pkg") || { echo "BUILD FAILED: $pkg" >&2; rm -f "$tmp"; exit 2; }
+  (cd "$ROOT/harness" && go build $OVL "$@" -o "$tmp" "$pkg") || { echo "BUILD FAILED: $pkg" >&2; rm -f "$tmp"; exit 2; }
   mv -f "$tmp" "$out"
 }
 case "$prop" in
   C12s|C13|C14s) echo "not yet" >&2; exit 2;;
 esac
-build ./cmd/vcheck "$ROOT/bin/vcheck"
+build ./cmd/vcheck "$BIN/vcheck"
 if [ "$mode" = "--replay" ]; then
-  exec "$ROOT/bin/vcheck" -prop "$prop" -replay "$1"
+  exec "$BIN/vcheck" -prop "$prop" -replay "$1"
 fi
-exec "$ROOT/bin/vcheck" -prop "$prop" -tier "$mode" -root "$ROOT" "$@"
+exec "$BIN/vcheck" -prop "$prop" -tier "$mode" -root "$OUT" "$@"
